@@ -85,6 +85,9 @@ var Plan *FaultPlan
 // Trace, if set, receives every file-system operation (for audits / op counting).
 var Trace func(p *simrt.Proc, op, path string)
 
+// TraceSite is the source site of the operation Trace is being called for.
+var TraceSite string
+
 // hooks registered by the harness (fake S3 client, ...)
 var hooks sync.Map
 
@@ -125,6 +128,7 @@ func pre(op, path, kind string, site string) error {
 	pd := PD(p)
 	pd.Ops++
 	if Trace != nil {
+		TraceSite = site
 		Trace(p, op, path)
 	}
 	if pd.CrashAtOp > 0 && pd.Ops == pd.CrashAtOp {
